@@ -354,9 +354,18 @@ func WalkVersions(ctx context.Context, fileSystem fs.FS, prefix, delimiter, keyM
 			if path == keyMarker {
 				pastMarker = true
 			}
-			if path < keyMarker {
+			// the walk visits the entries of a directory before the
+			// siblings of that directory ("d/x" before "d.z"): what has
+			// been listed before the marker is what the walk visits
+			// before it, not what is bytewise smaller
+			if walkedBefore(path, keyMarker) {
 				return nil
 			}
+		}
+		if path != keyMarker {
+			// the version id marker names a version of the marker key
+			// only ("null" is a version id of every key)
+			pastVersionIdMarker = true
 		}
 
 		if d.IsDir() {
@@ -508,4 +517,22 @@ func WalkVersions(ctx context.Context, fileSystem fs.FS, prefix, delimiter, keyM
 		NextMarker:          nextMarker,
 		NextVersionIdMarker: nextVersionIdMarker,
 	}, nil
+}
+
+// walkedBefore reports whether fs.WalkDir visits path a before path b: paths
+// compare element by element, so the separator sorts before every other byte.
+func walkedBefore(a, b string) bool {
+	for i := 0; i < len(a) && i < len(b); i++ {
+		if a[i] == b[i] {
+			continue
+		}
+		if a[i] == '/' {
+			return true
+		}
+		if b[i] == '/' {
+			return false
+		}
+		return a[i] < b[i]
+	}
+	return len(a) < len(b)
 }
